@@ -20,7 +20,8 @@ CONSTANT CODE_NANEQ
 Cases == ndJsonDeserialize(IOEnv.VERIF_CASES)
 
 PE(c) == [H |-> c.H, W |-> c.W, data |-> c.data, list |-> c.list, mode |-> c.mode, naneq |-> TRUE]
-CE(c) == [H |-> c.H, W |-> c.W, data |-> c.data, list |-> c.list, mode |-> c.mode, naneq |-> CODE_NANEQ]
+CE(c) == [H |-> c.H, W |-> c.W, data |-> c.data, list |-> c.list, mode |-> c.mode,
+          naneq |-> (c.mode = "trim" /\ CODE_NANEQ)]
 
 \* 0-based position of coordinate v in seq, -1 when absent
 Pos(seq, v) == IF \E i \in 1..Len(seq) : seq[i] = v
